@@ -183,17 +183,19 @@ Qed.
    1000, index at 2000); the reader run on the index bytes returns the one block holding the
    records that meet [11,13) *)
 Example C07_query_example_hyps :
-  exists st sds, zoom_chrom ieee 2 10 0 ex_vals zstate0 = Ok st /\ mapM (encode_zoom_section ieee) (zs_out st) = Ok sds /    let secs := place 1000 sds in
-    length secs = 2%nat /\ sorted_starts (map sect_span secs) /\ Forall sect_ok secs /    match write_index 2 2 2000 secs with
+  exists st sds, zoom_chrom ieee 2 10 0 ex_vals zstate0 = Ok st /\ mapM (encode_zoom_section ieee) (zs_out st) = Ok sds /\
+    let secs := place 1000 sds in
+    length secs = 2%nat /\ sorted_starts (map sect_span secs) /\ Forall sect_ok secs /\
+    match write_index 2 2 2000 secs with
     | Ok (bs, _) => search_bytes (length bs) false (repeatN 7 2000 ++ bs ++ [9]) 2048 0 11 13 = Ok [(1000, 64)]
     | _ => False
     end.
 Proof.
   eexists. eexists. split; [vm_compute; reflexivity|]. split; [vm_compute; reflexivity|]. cbv zeta.
-  split; [vm_compute; reflexivity|]. split.
-  - vm_compute. repeat (constructor; [|repeat constructor; unfold start_le, ple; cbn; lia]). constructor.
-  - split.
-    + apply Forall_forall. intros s Hs. vm_compute in Hs.
-      repeat (destruct Hs as [<-|Hs]; [vm_compute; repeat split; reflexivity|]). destruct Hs.
-    + vm_compute. reflexivity.
+  split; [vm_compute; reflexivity|]. split; [|split].
+  - match goal with |- sorted_starts ?l => let l' := eval vm_compute in l in change (sorted_starts l') end.
+    repeat (constructor; [|repeat constructor; unfold start_le, ple; cbn; lia]). constructor.
+  - apply Forall_forall. intros s Hs. vm_compute in Hs.
+    repeat (destruct Hs as [<-|Hs]; [vm_compute; repeat split; reflexivity|]). destruct Hs.
+  - vm_compute. reflexivity.
 Qed.
